@@ -224,7 +224,12 @@ func init() {
 			}
 			if p, ok := target.(*PtrV); ok && p.C != nil {
 				o := mk("Obj", "(json_dec "+bstrOf(b.T)+")")
-				e.store(st, p, o)
+				if cur, isStruct := e.load(st, p, nil).(*StructV); isStruct {
+					// decoding into a message struct: its fields are deterministic views of the decoded value
+					e.store(st, p, e.structView(st, o, cur.T))
+				} else {
+					e.store(st, p, o)
+				}
 			}
 			return []Val{mk(SErr, e.C.Fresh("json_err", SErr))}, nil
 		})
